@@ -115,3 +115,18 @@ spec fn rules_ok(evs: Seq<RuleEv>) -> bool
         }
     }
 }
+// ---- recovery behind a malformed signed @import (C18 / C01) ----
+/// a statement ends with its `;` or with its `{}` block
+spec fn ends_stmt(t: TokV) -> bool { t is CurlyBracketBlock || t is Semicolon }
+spec fn no_end(items: Seq<BItem>, a: int, b: int) -> bool { forall|i: int| a <= i < b ==> !ends_stmt((#[trigger] items[i]).tok) }
+proof fn lemma_fnw_ws(items: Seq<BItem>, c: int)
+    requires 0 <= c,
+    ensures forall|i: int| c <= i < first_non_ws(items, c) ==> (#[trigger] items[i]).tok is WhiteSpace,
+        first_non_ws(items, c) <= items.len(), c <= first_non_ws(items, c) || c >= items.len(),
+    decreases items.len() - c,
+{
+    if c < items.len() && items[c].tok is WhiteSpace {
+        lemma_fnw_ws(items, c + 1);
+        assert forall|i: int| c <= i < first_non_ws(items, c) implies (#[trigger] items[i]).tok is WhiteSpace by { if i > c { } }
+    }
+}
